@@ -286,6 +286,19 @@ def check_strings(ctx, thorough):
         if '\\' not in s and s.strip():
             # the same text is also the name of a routine: a quoted string is still a string
             ident = s if re.match(r'^[A-Za-z_][A-Za-z0-9_]*$', s) and s not in DOC_KEYWORDS + UNDOC + REGS + list(ABBR) + BUILTINS else 'zq_r'
+            # ... and of a macro: the string stays the string in every value position
+            for mtext, mexp in [] if ident == 'zq_w' else [('define %s 40 print "%s" println "%s"' % (ident, ident, ident), ['O|' + lang.show_val(ident), 'O|' + lang.show_val(ident), 'NL']),
+                                ('define %s "other text" assign zq_w "%s" print zq_w' % (ident, ident), ['O|' + lang.show_val(ident)]),
+                                ('define %s 7 printf "{}|{}" "%s" %s' % (ident, ident, ident), ['O|' + lang.show_val(ident + '|7')])]:
+                ctx.count()
+                p, e = lang.compile_script(mtext)
+                if p is None:
+                    ctx.counterexample('C16/string-equal-to-macro-name', 'a quoted string equal to the name of a macro is not accepted as a value: %s' % e.strip()[:80], {'text': mtext})
+                    continue
+                st, evs = lang.run_program_impl(p, lang.SMALL_WORLD, max_steps=200)
+                evs = [x for x in evs if x != 'FL']
+                if st != 'FIN' or evs != mexp:
+                    ctx.counterexample('C16/string-equal-to-macro-name', 'a quoted string equal to the name of a macro is not kept as written: %r prints %r instead of %r' % (mtext, evs[:4], mexp[:4]), {'text': mtext})
             text = 'define %s begin hue 1 end define mm "%s" print mm' % (ident, ident)
             ctx.count()
             p, e = lang.compile_script(text)
@@ -398,6 +411,29 @@ def run(ctx):
         lex_texts += [a, b]
         if ka != kb or not ka.startswith('A#'):
             ctx.counterexample('C16/relayout-changes-program', '%r and %r compile differently: %s vs %s' % (a, b, ka[:100], kb[:100]), {'text': b, 'relayout': a})
+    # braces round a single value in the positions the generator's statements do not reach: the names of a light list, arguments,
+    # loop bounds, conditions -- the script does the same
+    PRE = 'assign a "light_1" assign b "light_2" assign c "light_0" assign g "group" assign n 2\n'
+    for plain, braced in [('repeat in a and b and c as l begin print l end', 'repeat in {a} and {b} and {c} as l begin print l end'),
+                          ('repeat in a and b as l begin print l end', 'repeat in {a} and b as l begin print l end'),
+                          ('repeat in c and group g and a as l begin print l end', 'repeat in {c} and group {g} and {a} as l begin print l end'),
+                          ('repeat in group g and b as l begin print l end', 'repeat in group {g} and b as l begin print l end'),
+                          ('repeat n begin print n end', 'repeat {n} begin print {n} end'),
+                          ('repeat with i from 1 to n begin print i end', 'repeat with i from {1} to {n} begin print {i} end'),
+                          ('define f with p q begin print p print q end f n 5', 'define f with p q begin print {p} print {q} end f {n} {5}'),
+                          ('if n begin print 1 end else begin print 0 end', 'if {n} begin print {1} end else begin print {0} end'),
+                          ('repeat in a and b as l with v from 10 to 20 begin print l print v end', 'repeat in {a} and {b} as l with v from {10} to {20} begin print l print v end')]:
+        ctx.count()
+        pa, ea = lang.compile_script(PRE + plain)
+        pb, eb = lang.compile_script(PRE + braced)
+        if pa is None or pb is None:
+            ctx.counterexample('C16/braces-round-value-rejected', 'curly braces round single values make the script fail to compile: %s' % (ea or eb).strip()[:120], {'text': PRE + plain, 'relayout': PRE + braced})
+            continue
+        ra = lang.run_program_impl(pa, lang.SMALL_WORLD, max_steps=2000)
+        rb = lang.run_program_impl(pb, lang.SMALL_WORLD, max_steps=2000)
+        if (ra[0], ra[1]) != (rb[0], rb[1]):
+            ctx.counterexample('C16/braces-round-value-change-behaviour', 'curly braces round single values change what the script does: %r gives %r, %r gives %r'
+                               % (plain, ra[1][:8], braced, rb[1][:8]), {'text': PRE + plain, 'relayout': PRE + braced, 'world': lang.SMALL_WORLD})
     ctx.stage('relayout')
     for i in range(3000 if ctx.thorough() else 250):
         lex_texts.append(c06.soup(rng))
